@@ -348,6 +348,7 @@ func FuzzC10Extractor(f *testing.F) {
 			c.Cuts = []int{int(cut)%(len(data)-1) + 1}
 		}
 		if res := checkC10b(c, nil); res.Err != nil {
+			kit.FuzzReport("TestC10Extractor", c, res.Err)
 			t.Fatalf("%v", res.Err)
 		}
 	})
